@@ -266,23 +266,19 @@ class FixedArray
         _length = reduced_len;
     }
 
+    // Converting copy: a new, plain array holding the elements that 'other'
+    // selects.  (The copy owns exactly len() elements, so it must not take
+    // over the index table of a masked 'other': those indices address the
+    // longer array 'other' refers to.)
     template <class S>
     explicit FixedArray(const FixedArray<S> &other)
         : _ptr(0), _length(other.len()), _stride(1), _writable(true),
-          _handle(), _unmaskedLength(other.unmaskedLength())
+          _handle(), _unmaskedLength(0)
     {
         boost::shared_array<T> a(new T[_length]);
         for (size_t i=0; i<_length; ++i) a[i] = T(other[i]);
         _handle = a;
         _ptr = a.get();
-
-        if (_unmaskedLength)
-        {
-            _indices.reset(new size_t[_length]);
-
-            for (size_t i = 0; i < _length; ++i)
-                _indices[i] = other.raw_ptr_index(i);
-        }
     }
 
     FixedArray(const FixedArray &other)
